@@ -276,7 +276,14 @@ func (f *DefaultFanController) RunInitializationSequence() (err error) {
 	verifTrace(fan.GetId(), "AnalysisBegin")
 	defer verifTrace(fan.GetId(), "AnalysisEnd")
 
-	err1 := f.computePwmMap()
+	// the whole sequence (pwm map sweep and rpm curve measurement) must not overlap
+	// with the initialization sequence of another fan
+	if !configuration.CurrentConfig.RunFanInitializationInParallel {
+		InitializationSequenceMutex.Lock()
+		defer InitializationSequenceMutex.Unlock()
+	}
+
+	err1 := f.doComputePwmMap()
 	if err1 != nil {
 		ui.Warning("Error computing PWM map: %v", err1)
 	}
@@ -604,7 +611,12 @@ func (f *DefaultFanController) computePwmMap() (err error) {
 		InitializationSequenceMutex.Lock()
 		defer InitializationSequenceMutex.Unlock()
 	}
+	return f.doComputePwmMap()
+}
 
+// doComputePwmMap must be called with the InitializationSequenceMutex held
+// (unless fans are initialized in parallel)
+func (f *DefaultFanController) doComputePwmMap() (err error) {
 	var configOverride *map[int]int
 
 	switch f := f.fan.(type) {
